@@ -25,7 +25,11 @@ ASSUMPTIONS = [
     "min_cost_flow: the SSP model is a mirror only where each node pair carries one arc group (no anti-parallel "
     "pair, no parallel arcs of different cost); CPython set iteration order of `nodes` is observed in the worker "
     "and passed to the model as the node numbering; elsewhere the model is the certified reference",
-    "network_simplex: no mirror (no invariant holds on the unchanged tree update); decided against the certified optimum",
+    "network_simplex: no mirror (no invariant holds on the unchanged tree update); decided against the certified "
+    "optimum; failures are *classified* (never decided) by observing the unchanged function under sys.settrace: class "
+    "suffix basis_tree_corrupted = at the start of some iteration parent/pred/depth/thread/pi are not one rooted "
+    "spanning tree with zero reduced cost on tree arcs (the invariant the property record names for this state)",
+    "solve_assignment: no R_trace (CPython str-set order decides ties); the network is rebuilt in Lean in a fixed numbering",
     "the implementation's pooled dict is split over parallel arcs cheapest-first by the harness before the verified "
     "checker runs (any other split costs at least as much, so verdicts on capacity/balance/optimality are unaffected)",
     "excluded region: negative-cost cycles, negative capacities, negative demand, non-integer data",
@@ -273,27 +277,73 @@ def _set_order(graph, source, sink):
     return list(nodes)
 
 
-class _DeepRehang(Exception):
+class _Corrupted(Exception):
     pass
 
 
-def ns_deep_rehang(n, arcs, supplies):
-    """Observation for classifying network_simplex failures (never decides one): run the function under
-    sys.settrace and report whether some pivot re-hangs a cut-off subtree whose top node is *not* the end
-    point of the entering arc -- the case in which `parent[leaving_node] = new_parent` (no path reversal)
-    leaves parent/pred/thread/depth/pi inconsistent.  The run is abandoned at the first such pivot."""
+def _basis_tree_ok(loc):
+    """the invariant the property names for network_simplex's state: parent/pred/depth/thread/pi describe one
+    rooted spanning tree (depth = parent's depth + 1, pred joins node and parent, thread is a preorder of it)
+    whose tree arcs have zero reduced cost"""
+    parent, pred, depth, thread, pi = loc["parent"], loc["pred"], loc["depth"], loc["thread"], loc["pi"]
+    source, target, cost = loc["source"], loc["target"], loc["cost"]
+    root, total = loc["root"], loc["total_nodes"]
+    if depth[root] != 0 or parent[root] != -1:
+        return False
+    for v in range(total):
+        if v == root:
+            continue
+        p, a = parent[v], pred[v]
+        if not (0 <= p < total) or not (0 <= a < len(source)):
+            return False
+        if depth[v] != depth[p] + 1:
+            return False
+        if {source[a], target[a]} != {v, p}:
+            return False
+        if cost[a] - pi[source[a]] + pi[target[a]] != 0:
+            return False
+    order, v = [], root
+    for _ in range(total):
+        order.append(v)
+        v = thread[v]
+        if not (0 <= v < total):
+            return False
+    if v != root or len(set(order)) != total:
+        return False
+    for k in range(1, total):
+        u, v = order[k - 1], order[k]
+        anc, ok = u, False
+        for _ in range(total + 1):
+            if parent[v] == anc:
+                ok = True
+                break
+            if anc == root:
+                break
+            anc = parent[anc]
+        if not ok:
+            return False
+    return True
+
+
+def ns_tree_corrupted(n, arcs, supplies):
+    """Observation for classifying network_simplex failures (never decides one): run the unchanged function
+    under sys.settrace and report whether, at the start of some iteration, the basis-tree invariant named by
+    the property is broken.  Two mechanisms are known: a subtree whose top node is not the end point of the
+    entering arc is re-hung without reversing the path, and the depth update loop runs past the re-hung
+    subtree.  The run is abandoned at the first broken invariant."""
     import linecache
     import sys
     from solvor.network_simplex import network_simplex
     code = network_simplex.__code__
 
     def local(frame, event, arg):
-        if event == "line" and linecache.getline(code.co_filename, frame.f_lineno).strip() == \
-                "prev_thread = rev_thread[leaving_node]":
-            loc = frame.f_locals
-            end = loc["first"] if loc["leaving_first"] else loc["second"]
-            if loc["leaving_node"] != end:
-                raise _DeepRehang()
+        if event == "line" and linecache.getline(code.co_filename, frame.f_lineno).strip() == "entering = -1":
+            try:
+                ok = _basis_tree_ok(frame.f_locals)
+            except Exception:
+                ok = False
+            if not ok:
+                raise _Corrupted()
         return local
 
     def tracer(frame, event, arg):
@@ -303,7 +353,7 @@ def ns_deep_rehang(n, arcs, supplies):
     try:
         network_simplex(n, arcs, supplies, max_iter=20000)
         return False
-    except _DeepRehang:
+    except _Corrupted:
         return True
     except Exception:
         return False
@@ -312,7 +362,7 @@ def ns_deep_rehang(n, arcs, supplies):
 
 
 def impl_ns_flag(case):
-    return ns_deep_rehang(case["n"], [tuple(a) for a in case["arcs"]], list(case["supplies"]))
+    return ns_tree_corrupted(case["n"], [tuple(a) for a in case["arcs"]], list(case["supplies"]))
 
 
 def impl(case):
@@ -329,8 +379,8 @@ def impl(case):
         return {"order": order, **_res(min_cost_flow(g, case["source"], case["sink"], case["demand"]))}
     if fn == "network_simplex":
         from solvor.network_simplex import network_simplex
-        deep = impl_ns_flag(case)
-        return {"deep_rehang": deep, **_res(network_simplex(case["n"], [tuple(a) for a in case["arcs"]], list(case["supplies"])))}
+        flag = impl_ns_flag(case)
+        return {"tree_corrupted": flag, **_res(network_simplex(case["n"], [tuple(a) for a in case["arcs"]], list(case["supplies"])))}
     if fn == "solve_assignment":
         from solvor.flow import solve_assignment
         return _res(solve_assignment([list(r) for r in case["matrix"]]))
@@ -500,8 +550,8 @@ def verdict(ctx, fn, suffix, case, out, model, ichk, problem, rep):
 def ns_suffix(arcs, out):
     """class suffix of a network_simplex failure: the observed tree-update defect, else the input feature"""
     info = out[1] if out[0] == "ok" else (out[2] if len(out) > 2 else {})
-    if isinstance(info, dict) and info.get("deep_rehang"):
-        return ":deep_rehang"
+    if isinstance(info, dict) and info.get("tree_corrupted"):
+        return ":basis_tree_corrupted"
     return ":parallel_arcs" if has_parallel(arcs) else ""
 
 
@@ -540,7 +590,7 @@ def run_impl(cases):
     lost = [i for i in ids if outs[i][0] != "ok"]
     flags = run_pool(impl_ns_flag, [cases[i] for i in lost], timeout=20.0)
     for i, f in zip(lost, flags):
-        outs[i] = outs[i] + ({"deep_rehang": f[0] == "ok" and bool(f[1])},)
+        outs[i] = outs[i] + ({"tree_corrupted": f[0] == "ok" and bool(f[1])},)
     return outs
 
 
@@ -724,8 +774,8 @@ def judge(ctx, case, out, tout, meta, reply):
                 if not same and ok and tok:
                     raise Infra(f"C09: both solvers matched the certified answer yet disagree: {case}")
     elif fn == "network_simplex":
-        if out[0] == "ok" and out[1].get("deep_rehang"):
-            ctx.count("network_simplex:deep_rehang_pivot_observed")
+        if out[0] == "ok" and out[1].get("tree_corrupted"):
+            ctx.count("network_simplex:basis_tree_corruption_observed")
         ok = verdict(ctx, fn, ns_suffix(meta[1], out), case, out, reply, ichks[0], problems[0], rep)
         if ok:
             ctx.count("r_prop_agree")
@@ -737,6 +787,8 @@ def judge(ctx, case, out, tout, meta, reply):
 
 def run(ctx, budget):
     ctx.cov["rule"] = RULE
+    ctx.cov["missing_theorems"] = ["ssp_certifies [S]: the SSP model emits a valid certificate on every input "
+                                   "(replaced by checking the certificate of every explored input in Lean)"]
     big = ctx.tier == "thorough"
     cases = list(edge_cases()) + [c["case"] for c in load_corpus("C09")]
     n = 1000 * budget if budget == 1 else 700 * budget
